@@ -517,8 +517,10 @@ PROPS["C03"] = _cw3_prop("C03", 0, C03_CLAUSES, "proposal list (status, ballots,
     "expiry; Execute is admitted only when it says Passed (never with zero Yes); decisions latched before expiry stay valid for "
     "every later tally within the total (C04 stability); on cw3-fixed ballots never outweigh the total (sum over the voter map); "
     "the latch invariant (a stored Passed/Rejected agrees with the rule on the present tally) is kept by time and by every "
-    "accepted call, hence every reported status is the outcome the ballots imply (c03_status_is_outcome) - under the range "
-    "condition of C06, which on cw3-flex fails only in the known class D3. Tie to "
+    "accepted call, hence every reported status is the outcome the ballots imply (c03_status_is_outcome); the range condition "
+    "is discharged over whole histories: c03_fixed_history (cw3-fixed, every history from instantiate with blocks not going "
+    "backwards, every later query) and c03_flex_history (cw3-flex composed with the cw4 model, every interleaving of multisig "
+    "and group transactions outside the known class D3). Tie to "
     "the Rust: S_C03 recomputes the outcome from ListVotes, threshold, total and expiry for every proposal before and after "
     "every call on both real contracts (measured) + model/implementation equality of every proposal.")
 PROPS["C05"] = _cw3_prop("C05", 1, C05_CLAUSES, "proposal list and handler responses",
@@ -528,7 +530,8 @@ PROPS["C05"] = _cw3_prop("C05", 1, C05_CLAUSES, "proposal list and handler respo
     "re-entrancy, any blocks, failed calls rolled back) a proposal is settled at most once, so its messages are dispatched at "
     "most once (induction, absorbing finished states); content/threshold/total/expiry/deposit never change; ids are 1,2,3..; "
     "expiry <= max voting period; the reported status only moves Open -> Passed -> Executed | Open -> Rejected across every "
-    "accepted call and the passing of time (c05_monotone, under C06's range condition). "
+    "accepted call and the passing of time (c05_monotone) and hence between any two points of any history: c05_fixed_history "
+    "(cw3-fixed from instantiate) and c05_flex_history (cw3-flex composed with the cw4 model, outside the known class D3). "
     "Tie to the Rust: S_C05 on every transaction incl. nested self-calls logged by the wrapped entry point (measured).")
 PROPS["C06"] = _cw3_prop("C06", 2, C06_CLAUSES, "ballots, totals and the group's at-height answers",
     "Axiom-free Coq theorems: a vote adds exactly one ballot, only without a previous one, before expiry, on an unexecuted "
